@@ -924,8 +924,33 @@ def directed_seq(svc):
                 addrs=[a, b], responses=responses, ledgers=ledgers, ops=ops)
 
 
+def directed_retry(svc, first):
+    """Seed-independent run: one address reports a UTxO the adapter handles, one whose reference script kind it does NOT
+    handle (the whole call raises: known finding), and another it handles — the unsupported one first or in the middle.  The
+    caller asks, asks again at once, waits past the refetch interval and asks again: each time the adapter must raise or
+    answer completely, never hand out what a failed call left behind."""
+    import random
+    rng = random.Random(f'C20-retry-{svc}-{first}')
+    a = ADDRESSES[0]
+    good = [gen_utxo(rng, svc, None), gen_utxo(rng, svc, 'plutus')]
+    bad = gen_utxo(rng, svc, 'plutus_v3' if svc == 'cli' else 'native')
+    us = [bad] + good if first else [good[0], bad, good[1]]
+    ids = set()
+    for u in us:
+        while (u['txid'], u['index']) in ids:
+            u['index'] += 1
+        ids.add((u['txid'], u['index']))
+    responses = [dict(svc=svc, addr=a, utxos=us), dict(svc=svc, addr=a, utxos=good)]
+    ledgers = [dict(slot=5000, by_addr={a: 0}), dict(slot=5040, by_addr={a: 1})]
+    ops = [['query', a], ['query', a], ['tick', 2048], ['query', a], ['block', 1], ['tick', 1001 * TICK], ['query', a], ['query', a]]
+    return dict(seq=1, svc=svc, interval=None if svc in ('blockfrost', 'kupo', 'ogmios_v6') else 1000 * TICK, maxsize=None,
+                addrs=[a], responses=responses, ledgers=ledgers, ops=ops)
+
+
 def gen_seqs(ctx, per_svc):
-    return [directed_seq(svc) for svc in SVCS] + [gen_seq(ctx.rng, svc) for svc in SVCS for _ in range(per_svc)]
+    return ([directed_seq(svc) for svc in SVCS]
+            + [directed_retry(svc, first) for svc in SVCS if svc != 'blockfrost' for first in (True, False)]
+            + [gen_seq(ctx.rng, svc) for svc in SVCS for _ in range(per_svc)])
 
 
 def seq_nontrivial(sq):
